@@ -71,7 +71,8 @@ PROPS['C07']['rule'] = (E2E_RULE + '; plus the experiment TestLateInvalidation (
 PROPS['C10'] = _e2e(['store', 'mix'], ['C10'], ['outcome', 'ncalls'])
 PROPS['C10']['e2e'][0]['faults'] = True
 PROPS['C10']['e2e'][1]['faults'] = True
-PROPS['C10']['e2e'].append(dict(profile='conc', n_quick=500, n_thorough=5000, faults=True))   # stale-while-revalidate with failing origins: background faults
+PROPS['C10']['e2e'].append(dict(profile='conc', n_quick=500, n_thorough=5000, faults=True))
+PROPS['C10']['e2e'].append(dict(profile='urls', n_quick=300, n_thorough=3000))   # unusual but legal URLs (the key function must not fail on any)   # stale-while-revalidate with failing origins: background faults
 PROPS['C10']['rule'] = E2E_RULE + '; every generated history is run twice more with 1-4 store operations failing (error; for Get also undecodable bytes, the JSON text [null], the first half of the stored bytes) at seeded positions: monitor mon_C10 only (no panic, a definite outcome, an error only when an origin call of the exchange failed)'
 
 for _b in ('fs', 'fsenc', 'fsreopen'):
